@@ -132,13 +132,46 @@ func (e *env) byHash(n *refmodel.Node) {
 func (e *env) unknownHash(rng *rand.Rand) {
 	var h refmodel.Hash
 	rng.Read(h[:])
-	for _, p := range []string{"/api/v1/chain/header/", "/api/v1/chain/header/state/"} {
-		code, b := e.get(p + h.String())
-		if code != 404 {
-			e.violate("by-hash|unknown|status", fmt.Sprintf("GET %s<unknown hash> -> %d %s, expected 404", p, code, clip(string(b))), "GET "+p+h.String(), nil)
+	// absent hashes: a random one, and near-misses of a stored one (SQL wildcards, other letter case, one character
+	// changed or dropped) - none of them is a stored hash, so each must be answered 404
+	stored := e.m.Order[rng.Intn(len(e.m.Order))].Hash.String()
+	i := rng.Intn(len(stored))
+	flip := byte('0')
+	if stored[i] == '0' {
+		flip = '1'
+	}
+	absent := map[string]string{
+		"random":          h.String(),
+		"wildcard-_":      stored[:i] + "_" + stored[i+1:],
+		"wildcard-%":      stored[:40] + "%",
+		"wildcard-only-%": "%25",
+		"upper-case":      strings.ToUpper(stored),
+		"one-char-off":    stored[:i] + string(flip) + stored[i+1:],
+		"prefix":          stored[:63],
+	}
+	if strings.ToUpper(stored) == stored {
+		delete(absent, "upper-case")
+	}
+	for cls, hv := range absent {
+		esc := strings.ReplaceAll(hv, "%", "%25")
+		if cls == "wildcard-only-%" {
+			esc = hv
+		}
+		for _, p := range []string{"/api/v1/chain/header/", "/api/v1/chain/header/state/"} {
+			code, b := e.get(p + esc)
+			if code != 404 {
+				e.violate("by-hash|absent:"+cls+"|status", fmt.Sprintf("GET %s<%s> -> %d %s, expected 404 (not a stored hash)", p, cls, code, clip(string(b))), "GET "+p+esc, nil)
+				return
+			}
+		}
+		// ancestors with an absent argument must not answer 200
+		q := fmt.Sprintf("/api/v1/chain/header/%s/%s/ancestor", stored, esc)
+		if code, b := e.get(q); code == 200 {
+			e.violate("ancestors|absent:"+cls+"|200", fmt.Sprintf("GET %s -> 200 %s although the ancestor argument is not a stored hash", q, clip(string(b))), "GET "+q, nil)
 			return
 		}
 	}
+	e.r.Count("absent_hash_probes", int64(len(absent)))
 }
 
 func (e *env) byHeight(height, count int, withCount bool) {
